@@ -547,6 +547,211 @@ impl Worker {
     }
 }
 
+
+// ------------------------------------------------------------------------------------------------------------------ C13 (git)
+
+fn b64enc(d: &[u8]) -> String {
+    const T: &[u8; 64] = b"ABCDEFGHIJKLMNOPQRSTUVWXYZabcdefghijklmnopqrstuvwxyz0123456789+/";
+    let mut o = String::new();
+    for c in d.chunks(3) {
+        let n = (c[0] as u32) << 16 | (*c.get(1).unwrap_or(&0) as u32) << 8 | *c.get(2).unwrap_or(&0) as u32;
+        o.push(T[(n >> 18) as usize & 63] as char);
+        o.push(T[(n >> 12) as usize & 63] as char);
+        o.push(if c.len() > 1 { T[(n >> 6) as usize & 63] as char } else { '=' });
+        o.push(if c.len() > 2 { T[n as usize & 63] as char } else { '=' });
+    }
+    o
+}
+fn b64dec(s: &str) -> Option<Vec<u8>> {
+    let v = |c: u8| -> Option<u32> {
+        Some(match c {
+            b'A'..=b'Z' => c - b'A',
+            b'a'..=b'z' => c - b'a' + 26,
+            b'0'..=b'9' => c - b'0' + 52,
+            b'+' => 62,
+            b'/' => 63,
+            _ => return None,
+        } as u32)
+    };
+    let b: Vec<u8> = s.bytes().filter(|c| *c != b'=').collect();
+    let mut o = Vec::new();
+    for c in b.chunks(4) {
+        let mut n = 0u32;
+        for (i, x) in c.iter().enumerate() {
+            n |= v(*x)? << (18 - 6 * i);
+        }
+        o.push((n >> 16) as u8);
+        if c.len() > 2 {
+            o.push((n >> 8) as u8);
+        }
+        if c.len() > 3 {
+            o.push(n as u8);
+        }
+    }
+    Some(o)
+}
+
+fn contains(hay: &[u8], needle: &[u8]) -> bool {
+    needle.len() >= 6 && hay.windows(needle.len()).any(|w| w == needle)
+}
+
+/// The sealed form of C13 as it lies in the git working tree, and what happens when it is tampered with.
+async fn seal_checks(dir: &Path, payload_kind: u8, every_byte: bool) -> Result<usize, Mismatch> {
+    let sc = Scenario { kind: "git-seal".into(), base: vec![], seq: vec![Call::Add(0, P::Nil, payload_kind)], walk: false };
+    let bad = |at: &str, got: String, exp: &str| Err(mm(&sc, at.to_string(), got, exp.to_string()));
+    let _ = std::fs::remove_dir_all(dir);
+    std::fs::create_dir_all(dir).unwrap();
+    let repo = dir.join("repo");
+    let cfg = |secret: &[u8]| ServerConfig::Git { local_path: repo.clone(), branch: "main".into(), remote: None, local_only: true, encryption_secret: secret.to_vec(), git_path: None };
+    let p1: Vec<u8> = match payload_kind {
+        0 => vec![],
+        1 => b"TASKCONTENT {\"description\":\"my secret plan\"} TASKCONTENT".to_vec(),
+        _ => payload(2),
+    };
+    let p2: Vec<u8> = b"SECOND-VERSION-CONTENT-0123456789".to_vec();
+    let snap: Vec<u8> = b"SNAPSHOT-CONTENT {\"uuid\":{\"description\":\"hidden\"}}".to_vec();
+    let mut srv = cfg(b"secret").into_server().await.map_err(|e| mm(&sc, "opening the repository".into(), format!("{e}"), "opens".into()))?;
+    let v1 = match srv.add_version(Uuid::nil(), p1.clone()).await {
+        Ok((AddVersionResult::Ok(v), _)) => v,
+        other => return bad("add_version #1", format!("{:?}", other.map(|x| x.0)), "accepted"),
+    };
+    let v2 = match srv.add_version(v1, p2.clone()).await {
+        Ok((AddVersionResult::Ok(v), _)) => v,
+        other => return bad("add_version #2", format!("{:?}", other.map(|x| x.0)), "accepted"),
+    };
+    if let Err(e) = srv.add_snapshot(v2, snap.clone()).await {
+        return bad("add_snapshot", format!("Err({e})"), "Ok");
+    }
+    let f1 = repo.join(format!("v-{}-{}", Uuid::nil().simple(), v1.simple()));
+    let f2 = repo.join(format!("v-{}-{}", v1.simple(), v2.simple()));
+    let fs = repo.join("snapshot");
+    let b1 = std::fs::read(&f1).map_err(|e| mm(&sc, "reading the version file".into(), format!("{e}"), format!("a file {}", f1.display())))?;
+    let b2 = std::fs::read(&f2).map_err(|e| mm(&sc, "reading the second version file".into(), format!("{e}"), "a file".into()))?;
+    let mut checks = 0usize;
+    // the documented sealed form
+    for (name, b, p) in [("version #1", &b1, &p1), ("version #2", &b2, &p2)] {
+        checks += 1;
+        if b.first() != Some(&1) {
+            return bad(&format!("stored form of {name}"), format!("first byte {:?}", b.first()), "format byte 1");
+        }
+        if b.len() != 1 + 12 + p.len() + 16 {
+            return bad(&format!("stored form of {name}"), format!("{} bytes for a payload of {}", b.len(), p.len()), "1 + 12 (nonce) + payload + 16 (tag) bytes");
+        }
+        if contains(b, p) || contains(b, &p[..p.len().min(12)]) {
+            return bad(&format!("stored form of {name}"), "the payload appears in the stored bytes".into(), "no task content appears in what is stored");
+        }
+    }
+    if b1[1..13] == b2[1..13] {
+        return bad("nonces of two versions", "equal".into(), "a fresh random nonce each time");
+    }
+    // everything in the working tree and the object database: no plaintext anywhere
+    fn walk(d: &Path, f: &mut dyn FnMut(&Path)) {
+        if let Ok(rd) = std::fs::read_dir(d) {
+            for e in rd.flatten() {
+                let p = e.path();
+                if p.is_dir() {
+                    walk(&p, f);
+                } else {
+                    f(&p);
+                }
+            }
+        }
+    }
+    let mut leak: Option<String> = None;
+    walk(&repo, &mut |p| {
+        if let Ok(b) = std::fs::read(p) {
+            for needle in [&p1[..p1.len().min(20)], &p2[..20], &snap[..20]] {
+                if contains(&b, needle) {
+                    leak = Some(p.display().to_string());
+                }
+            }
+        }
+    });
+    checks += 1;
+    if let Some(l) = leak {
+        return bad("files of the repository", format!("task content in clear in {l}"), "no task content appears in what is stored");
+    }
+    let sjson: serde_json::Value = serde_json::from_slice(&std::fs::read(&fs).unwrap_or_default()).unwrap_or(serde_json::Value::Null);
+    let sp = sjson["payload"].as_str().and_then(b64dec);
+    let Some(sp) = sp else { return bad("stored form of the snapshot", format!("{sjson}"), "a base64 payload") };
+    checks += 1;
+    if sp.first() != Some(&1) || sp.len() != 1 + 12 + snap.len() + 16 || contains(&sp, &snap[..12]) {
+        return bad("stored form of the snapshot", format!("first byte {:?}, {} bytes", sp.first(), sp.len()), "the sealed form of the snapshot");
+    }
+    // opening with the same secret yields the original bytes
+    match srv.get_child_version(Uuid::nil()).await {
+        Ok(GetVersionResult::Version { version_id, history_segment, .. }) if version_id == v1 && history_segment == p1 => {}
+        other => return bad("reading version #1 back", format!("{:?}", other.map(|_| "something else")), "the original bytes"),
+    }
+    // every single-bit modification of one byte and every truncation is rejected with an error
+    let positions: Vec<usize> = if every_byte { (0..b1.len()).collect() } else { (0..b1.len()).filter(|i| *i < 40 || *i + 20 >= b1.len() || i % 97 == 0).collect() };
+    for i in positions {
+        let mut t = b1.clone();
+        t[i] ^= 1 << (i % 8);
+        std::fs::write(&f1, &t).unwrap();
+        checks += 1;
+        match srv.get_child_version(Uuid::nil()).await {
+            Err(_) => {}
+            Ok(r) => {
+                std::fs::write(&f1, &b1).unwrap();
+                return bad(&format!("version file with byte {i} modified"), format!("Ok({})", match r { GetVersionResult::NoSuchVersion => "NoSuchVersion".to_string(), GetVersionResult::Version { history_segment, .. } => format!("{} bytes returned", history_segment.len()) }), "an error");
+            }
+        }
+    }
+    let cuts: Vec<usize> = if every_byte { (0..b1.len()).collect() } else { (0..b1.len()).filter(|i| *i < 32 || *i + 18 >= b1.len()).collect() };
+    for n in cuts {
+        std::fs::write(&f1, &b1[..n]).unwrap();
+        checks += 1;
+        if let Ok(r) = srv.get_child_version(Uuid::nil()).await {
+            std::fs::write(&f1, &b1).unwrap();
+            return bad(&format!("version file truncated to {n} bytes"), format!("Ok({})", matches!(r, GetVersionResult::Version { .. })), "an error");
+        }
+    }
+    std::fs::write(&f1, &b1).unwrap();
+    // re-labelled: the sealed bytes of version #1 under the name of version #2
+    std::fs::write(&f2, &b1).unwrap();
+    checks += 1;
+    if let Ok(GetVersionResult::Version { .. }) = srv.get_child_version(v1).await {
+        std::fs::write(&f2, &b2).unwrap();
+        return bad("sealed bytes of version #1 stored under the name of version #2", "returned as a version".into(), "an error (the version id is authenticated)");
+    }
+    std::fs::write(&f2, &b2).unwrap();
+    // snapshot: modified payload, re-labelled version id, a version's bytes in place of the snapshot
+    let orig_snapshot = std::fs::read(&fs).unwrap();
+    for (what, vid, pl) in [
+        ("snapshot with one payload byte modified", v2, { let mut t = sp.clone(); let k = t.len() / 2; t[k] ^= 4; t }),
+        ("snapshot re-labelled with another version id", v1, sp.clone()),
+        // (not checked: version #2's sealed bytes stored as the snapshot OF VERSION #2 do open -- both are authenticated with the same
+        // application id and version id, the documented form has no separate label for the kind of data; the property does not ask for one)
+        ("the sealed bytes of version #1 stored as the snapshot of version #2", v2, b1.clone()),
+        ("snapshot truncated", v2, sp[..sp.len() - 1].to_vec()),
+    ] {
+        let j = serde_json::json!({"version_id": vid.simple().to_string(), "payload": b64enc(&pl)});
+        std::fs::write(&fs, serde_json::to_vec(&j).unwrap()).unwrap();
+        checks += 1;
+        if let Ok(Some((v, d))) = srv.get_snapshot().await {
+            std::fs::write(&fs, &orig_snapshot).unwrap();
+            return bad(what, format!("returned a snapshot for {v}, {} bytes", d.len()), "an error");
+        }
+    }
+    std::fs::write(&fs, &orig_snapshot).unwrap();
+    match srv.get_snapshot().await {
+        Ok(Some((v, d))) if v == v2 && d == snap => {}
+        other => return bad("reading the snapshot back", format!("{:?}", other.map(|x| x.map(|y| y.0))), "the original bytes with its version id"),
+    }
+    // a different secret opens nothing
+    drop(srv);
+    let mut other = cfg(b"another secret").into_server().await.map_err(|e| mm(&sc, "opening with another secret".into(), format!("{e}"), "opens".into()))?;
+    checks += 2;
+    if let Ok(GetVersionResult::Version { .. }) = other.get_child_version(Uuid::nil()).await {
+        return bad("reading version #1 with another secret", "returned as a version".into(), "an error");
+    }
+    if let Ok(Some(_)) = other.get_snapshot().await {
+        return bad("reading the snapshot with another secret", "returned".into(), "an error");
+    }
+    Ok(checks)
+}
+
 fn alphabet(kind: &str, payloads: &[u8], snaps: bool, reopen: bool, parents: &[P]) -> Vec<Call> {
     let mut v = Vec::new();
     for h in 0..nhandles(kind) {
@@ -750,6 +955,28 @@ fn main() {
         bounds.insert("git-fault".into(), serde_json::json!([{"fault_positions": kmax, "fault_kinds": modes, "bases": if thorough { 3 } else { 2 }, "follow_ups": follow.len(), "scenarios": n,
             "what": "k-th git command of add_version / add_snapshot on handle 0 fails (before / after / from there on), all handles restart, both replicas go on"}]));
     }
+    let mut seal_result: Option<(usize, Option<Mismatch>)> = None;
+    if only.as_deref().map(|o| o.split(',').any(|k| k == "git-seal")).unwrap_or(false) {
+        let r = rt();
+        let mut n = 0usize;
+        let mut failure = None;
+        for pk in [1u8, 0, 2] {
+            if pk == 2 && !thorough {
+                continue;
+            }
+            match r.block_on(seal_checks(&work.join("seal"), pk, thorough || pk != 2)) {
+                Ok(k) => n += k,
+                Err(m) => {
+                    failure = Some(m);
+                    break;
+                }
+            }
+        }
+        let _ = std::fs::remove_dir_all(work.join("seal"));
+        bounds.insert("git-seal".into(), serde_json::json!([{"payloads": if thorough { 3 } else { 2 }, "checks": n,
+            "what": "sealed form in the working tree; every single-bit modification of each byte and every truncation of a version file; re-labelled version and snapshot; wrong secret"}]));
+        seal_result = Some((n, failure));
+    }
     // slow (git) scenarios first so that the workers finish together
     scenarios.sort_by_key(|s| if s.kind == "local" { 1 } else { 0 });
     if let Some(l) = get("--limit").and_then(|s| s.parse::<usize>().ok()) {
@@ -801,6 +1028,12 @@ fn main() {
         ran += r;
         skipped += s;
         found.extend(f);
+    }
+    if let Some((n, f)) = seal_result {
+        ran += n;
+        if let Some(m) = f {
+            found.push(m);
+        }
     }
     found.sort_by_key(|m| m.scenario.seq.len() + m.scenario.base.len());
     let mut files = Vec::new();
